@@ -210,20 +210,37 @@ def oracle(c, impl):
     else:
         kn = max(k for k in range(n) if b[k] <= rn)
         where = 'inside'
-    resid = []
-    for k in range(n):
-        exp_t = face[k] - face[k + 1]
-        sc = abs(face[k]) + abs(face[k + 1]) + abs(c['nuc'])
-        resid.append((dx[k] - exp_t, tol * sc + (0 if exact else 1e-300)))
-    nz = [k for k, (r, t) in enumerate(resid) if abs(r) > t]
-    want = [k for k in [kn] if abs(c['nuc']) > resid[k][1]]
-    if nz != want or any(abs(resid[k][0] - c['nuc']) > resid[k][1] for k in nz):
-        if len(nz) <= 1 and all(abs(resid[k][0] - c['nuc']) <= resid[k][1] for k in nz):
-            v.append(('nucleation_class', 'Rnuc %s the grid' % where,
-                      'nuclei (rate %r, radius %r) were added to class %s, expected class %d (grid %r..%r)' % (c['nuc'], rn, nz[0] if nz else 'none', kn, b[0], b[-1])))
-        else:
-            k = nz[0] if nz else kn
-            v.append(('upwind_local', 'transport', 'dXdt[%d]=%r but adjacent-class exchange gives %r (+ nucleation %r)' % (k, dx[k], face[k] - face[k + 1], c['nuc'] if k == kn else 0.0)))
+    def nucleation_and_exchange(dxv, fc, label, tol=tol):
+        """dxv must be the difference of the face fluxes fc plus the nucleation rate in class kn only"""
+        resid = []
+        for k in range(n):
+            exp_t = fc[k] - fc[k + 1]
+            sc = abs(fc[k]) + abs(fc[k + 1]) + abs(c['nuc'])
+            resid.append((dxv[k] - exp_t, tol * sc + (0 if tol == 0 else 1e-300)))
+        nz = [k for k, (r, t) in enumerate(resid) if abs(r) > t]
+        want = [k for k in [kn] if abs(c['nuc']) > resid[k][1]]
+        if nz != want or any(abs(resid[k][0] - c['nuc']) > resid[k][1] for k in nz):
+            if len(nz) <= 1 and all(abs(resid[k][0] - c['nuc']) <= resid[k][1] for k in nz):
+                v.append(('nucleation_class', 'Rnuc %s the grid%s' % (where, label),
+                          'nuclei (rate %r, radius %r) were added to class %s, expected class %d (grid %r..%r)%s' % (c['nuc'], rn, nz[0] if nz else 'none', kn, b[0], b[-1], label)))
+            else:
+                k = nz[0] if nz else kn
+                v.append(('upwind_local', 'transport' + label, 'dXdt[%d]=%r but adjacent-class exchange gives %r (+ nucleation %r)%s' % (k, dxv[k], fc[k] - fc[k + 1], c['nuc'] if k == kn else 0.0, label)))
+    nucleation_and_exchange(dx, face, '')
+    # the corrected rate must still be pure exchange between neighbours through the corrected faces
+    # (the class-wise scale p/outflow is not exact in binary64 even for dyadic inputs: always a tolerance here)
+    nucleation_and_exchange(impl['dxdt2'], [float(z) for z in impl['nf2']], ' (after the step-size correction)', tol=1e-9)
+    tot2 = float(np.sum(impl['dxdt2']))
+    exp2 = c['nuc'] + float(impl['nf2'][0]) - float(impl['nf2'][n])
+    sc2 = sum(abs(float(x)) for x in impl['nf2']) * 2 + abs(c['nuc'])
+    if abs(tot2 - exp2) > 1e-9 * sc2:
+        v.append(('sum_dXdt', 'total (after the step-size correction)', 'sum(corrected dXdt)=%r, nucleation + end fluxes = %r' % (tot2, exp2)))
+    # corrected face fluxes may only differ from the upwind fluxes by shrinking (checked below); the
+    # uncorrected faces must be the upwind fluxes
+    for k in range(n + 1):
+        if abs(float(impl['nf'][k]) - face[k]) > tol * abs(face[k]) + (0 if exact else 1e-300):
+            v.append(('upwind_local', 'face flux', 'face %d carries %r, upwind rule gives %r' % (k, float(impl['nf'][k]), face[k])))
+            break
     # total
     tot = float(np.sum(dx))
     exp_tot = c['nuc'] + face[0] - face[n]
